@@ -356,6 +356,15 @@ PLANS = {
         "drive": {"quick": [{"args": ["reg", "-n", "6000", "-seed", "{seed}"]}],
                   "thorough": [{"args": ["reg", "-n", "150000", "-seed", "{seed}"]}]},
         "judge": {"module": "JudgeReg", "cfg": "JudgeReg.cfg"},
+        "apalache": [
+            {"module": "RegistryInd", "init": "IndInit", "inv": "IndInv", "length": 0,
+             "what": "every injective key map with arbitrary integer keys satisfies IndInv"},
+            {"module": "RegistryInd", "init": "IndInv", "inv": "IndInv", "length": 1,
+             "what": "IndInv (injective, assignments stable, idempotent, fresh positive key) is preserved by every registration: "
+                     "histories of any length, keys over all of Int, five interchangeable names"},
+            {"module": "RegistryInd", "init": "IndInv", "inv": "Total", "length": 0,
+             "what": "the allocation rule always has a key to hand out"},
+        ],
         "replay_args": ["reg", "-n", "200", "-seed", "1"],
         "engine": "histories",
         "rule": "one history = (pre-populated key map with distinct keys over {-32768, -2, 0..3, 5, 100, 253..257, 32767}, "
